@@ -107,6 +107,7 @@ class FuncEffects:
         self.func = func
         self.params = param_names(func)
         self.roots = {}              # name -> set of Root keys
+        self.holds = {}              # local container -> roots of what it holds
         self.writes = []             # dict(node, table, field, kind, how)
         self.kernel_calls = []       # dict(node, kernel, table, roots)
         self.method_calls = []       # dict(node, table, method, inplace)
@@ -143,6 +144,10 @@ class FuncEffects:
         if isinstance(e, ast.Subscript):
             base = self.root_of(e.value)
             out = set()
+            if isinstance(e.value, ast.Name) and e.value.id in self.holds \
+                    and not isinstance(e.slice, ast.Slice):
+                # element of a local container that holds aliases
+                out |= self.holds[e.value.id]
             for k, t, f in base:
                 if k == 'array':
                     # basic slicing returns a view; fancy indexing copies
@@ -171,6 +176,10 @@ class FuncEffects:
                 recv = self.root_of(e.func.value)
                 attr = e.func.attr
                 out = set()
+                if isinstance(e.func.value, ast.Name) and \
+                        e.func.value.id in self.holds and attr in (
+                            'get', 'pop', 'setdefault', '__getitem__'):
+                    out |= self.holds[e.func.value.id]
                 for k, t, f in recv:
                     if k == 'table':
                         if attr in ('ids',):
@@ -316,6 +325,55 @@ class FuncEffects:
                     elif r:
                         for nm in names:
                             pairs.append((nm, r))
+                # local containers filled with aliases (dict / list)
+                hp = []
+                if isinstance(n, ast.Assign):
+                    for t in n.targets:
+                        if isinstance(t, ast.Subscript) and isinstance(
+                                t.value, ast.Name) and not self.root_of(
+                                t.value):
+                            hp.append((t.value.id, self.root_of(n.value)))
+                        elif isinstance(t, ast.Name) and isinstance(
+                                n.value, (ast.DictComp,)):
+                            hp.append((t.id, self.root_of(n.value.value)))
+                        elif isinstance(t, ast.Name) and isinstance(
+                                n.value, ast.Dict):
+                            r_ = set()
+                            for x in n.value.values:
+                                r_ |= self.root_of(x)
+                            hp.append((t.id, r_))
+                elif isinstance(n, ast.Call) and isinstance(
+                        n.func, ast.Attribute) and isinstance(
+                        n.func.value, ast.Name) and n.func.attr in (
+                        'append', 'add', 'insert', 'setdefault') and \
+                        n.args and not self.root_of(n.func.value):
+                    hp.append((n.func.value.id, self.root_of(n.args[-1])))
+                for name, r in hp:
+                    r = {x for x in r if x[0] == 'array'}
+                    if r - self.holds.get(name, set()):
+                        self.holds.setdefault(name, set()).update(r)
+                        changed = True
+                if isinstance(n, (ast.For, ast.comprehension)):
+                    it = n.iter
+                    hn = None
+                    pos = None
+                    if isinstance(it, ast.Name) and it.id in self.holds:
+                        hn = it.id
+                    elif isinstance(it, ast.Call) and isinstance(
+                            it.func, ast.Attribute) and isinstance(
+                            it.func.value, ast.Name) and \
+                            it.func.value.id in self.holds and \
+                            it.func.attr in ('values', 'items'):
+                        hn = it.func.value.id
+                        pos = 1 if it.func.attr == 'items' else None
+                    if hn is not None:
+                        tg = n.target
+                        if pos is not None and isinstance(
+                                tg, (ast.Tuple, ast.List)) and \
+                                len(tg.elts) == 2:
+                            tg = tg.elts[1]
+                        for nm in target_names(tg):
+                            pairs.append((nm, self.holds[hn]))
                 for name, r in pairs:
                     if name == self.bind:
                         continue
